@@ -16,7 +16,7 @@ use pkgsrc::{Depend, Dewey, Metadata, MetadataEntry, Pattern, PkgName, PkgPath, 
 use std::io::Write;
 use std::str::FromStr;
 
-const SUMMARY_SEED: &str = "BUILD_DATE=2019-08-12 15:58:02 +0100\nCATEGORIES=devel pkgtools\nCOMMENT=This is a test\nCONFLICTS=foo-[0-9]*\nCONFLICTS=bar>=1<2\nDEPENDS=dep-[0-9]*\nDESCRIPTION=A test description\nDESCRIPTION=\nDESCRIPTION=This is a multi-line variable é€\nFILE_CKSUM=SHA1 a4801e9b26eeb5b8bd1f54bac1c8e89dec67786a\nFILE_NAME=testpkg-1.0.tgz\nFILE_SIZE=1234\nHOMEPAGE=https://example.org/\nLICENSE=isc\nMACHINE_ARCH=x86_64\nOPSYS=Darwin\nOS_VERSION=18.7.0\nPKG_OPTIONS=http2 idn\nPKGNAME=testpkg-1.0nb2\nPKGPATH=pkgtools/testpkg\nPKGTOOLS_VERSION=20091115\nPREV_PKGPATH=obsolete/testpkg\nPROVIDES=/opt/pkg/lib/libfoo.dylib\nREQUIRES=/usr/lib/libSystem.B.dylib\nSIZE_PKG=4321\nSUPERSEDES=oldpkg<1.0\n";
+pub const SUMMARY_SEED: &str = "BUILD_DATE=2019-08-12 15:58:02 +0100\nCATEGORIES=devel pkgtools\nCOMMENT=This is a test\nCONFLICTS=foo-[0-9]*\nCONFLICTS=bar>=1<2\nDEPENDS=dep-[0-9]*\nDESCRIPTION=A test description\nDESCRIPTION=\nDESCRIPTION=This is a multi-line variable é€\nFILE_CKSUM=SHA1 a4801e9b26eeb5b8bd1f54bac1c8e89dec67786a\nFILE_NAME=testpkg-1.0.tgz\nFILE_SIZE=1234\nHOMEPAGE=https://example.org/\nLICENSE=isc\nMACHINE_ARCH=x86_64\nOPSYS=Darwin\nOS_VERSION=18.7.0\nPKG_OPTIONS=http2 idn\nPKGNAME=testpkg-1.0nb2\nPKGPATH=pkgtools/testpkg\nPKGTOOLS_VERSION=20091115\nPREV_PKGPATH=obsolete/testpkg\nPROVIDES=/opt/pkg/lib/libfoo.dylib\nREQUIRES=/usr/lib/libSystem.B.dylib\nSIZE_PKG=4321\nSUPERSEDES=oldpkg<1.0\n";
 
 const PLIST_SEED: &str = "@comment $NetBSD$\n\n@name pkgtest-1.0\n@pkgdep dep-pkg1-[0-9]*\n@pkgdep dep-pkg2>=2.0\n@blddep dep-pkg1-1.0nb2\n@pkgcfl cfl-pkg1<2.0\n@display MESSAGE\n@cwd /opt/pkg\n@option preserve\n@mode 0644\n@owner root\n@group wheel\nbin/foo\n@exec echo \"I just installed F=%F D=%D B=%B f=%f\"\n@unexec echo \"I just deleted F=%F\"\n@mode\n@owner\n@group\nbin/bar\nb\n@src /opt\n@cd /usr\n@pkgdir /opt/pkg/share/junk\n@dirrm /opt/pkg/share/obsolete-option\n@ignore\n+BUILD_INFO\n";
 
@@ -601,6 +601,54 @@ pub fn run(cx: &mut Cx) {
         }
         cx.ev.require(&format!("calls/{e}"));
     }
+    // Deep-structure probes, each in a child process (deep.rs): sizes 1 000,
+    // 10 000 and the kind's largest.  Not under Miri (no processes) nor ASan
+    // (its stack frames are not the program's).
+    if !mini && cx.engine != "asan" && cx.engine != "valgrind" && cx.engine != "cov" {
+        cx.ev.require("deep/probes");
+        let mut i = 0u64;
+        for (kind, quick_max, thorough_max) in crate::deep::KINDS {
+            let top = if cx.tier == Tier::Thorough { thorough_max } else { quick_max };
+            let sizes: Vec<usize> = if kind == "glob-stars" {
+                // between 1 000 (fits on 2 MiB in every build) and 30 000
+                // (does not, in any build) whether K3 bites depends on the
+                // build's frame size: not probed
+                vec![1_000, if cx.tier == Tier::Small { 30_000 } else { top }]
+            } else if cx.tier == Tier::Small {
+                vec![1_000, top.min(30_000)]
+            } else {
+                vec![1_000, 10_000.min(top), top]
+            };
+            for n in sizes {
+                i += 1;
+                if !cx.mine(i) {
+                    continue;
+                }
+                cx.set_budget(1 << 24, 1 << 32);
+                cx.check(
+                    || format!("deep structure probe {kind} n={n} (child process, 2 MiB stack)"),
+                    |ev| {
+                        ev.count("deep/probes");
+                        ev.count(&format!("deep/{kind}"));
+                        ev.eval();
+                        let o = crate::deep::run_child(kind, n).map_err(crate::fw::Fail::from)?;
+                        if o.ok {
+                            ev.count("deep/returned");
+                            ev.nontrivial(hash_bytes(format!("{kind}{n}").as_bytes()));
+                            return Ok(());
+                        }
+                        let msg = format!("{kind} with n={n}: {}", o.text);
+                        // K3: the glob crate's matcher recurses once per '*'
+                        if kind == "glob-stars" && n >= 30_000 && o.stack_overflow {
+                            return Err(crate::fw::known(crate::deep::K3, msg));
+                        }
+                        Err(msg.into())
+                    },
+                );
+            }
+        }
+    }
+
     let big = matches!(cx.tier, Tier::Quick | Tier::Thorough);
     let rounds = cx.per_shard(96, 1_500, 30_000, 400_000);
     let mut r = cx.stream("inputs");
